@@ -56,6 +56,9 @@ Cfg(k, l, c) == [spkey |-> k, life |-> l, cookie |-> c]
 AllCfgs  == { Cfg(k, l, c) : k \in {"RSA", "ECDSA"}, l \in {3600, 60}, c \in {"default", "custom"} }
 DiagCfgs == { Cfg("RSA", 3600, "default"), Cfg("ECDSA", 60, "custom") }
 FourCfgs == DiagCfgs \cup { Cfg("RSA", 60, "custom"), Cfg("ECDSA", 3600, "default") }
+\* degenerate session lifetimes: a codec configured with a zero, one-second or negative MaxAge
+\* still mints an expiry, so its tokens authenticate (almost) never
+EdgeCfgs == { Cfg("RSA", 0, "default"), Cfg("ECDSA", 1, "custom"), Cfg("RSA", -60, "custom") }
 
 ----------------------------------------------------------------------------
 (* tokens *)
@@ -146,10 +149,10 @@ OnM(cfgs, F(_)) == UNION { { <<c, t>> : t \in F(c) } : c \in cfgs }
 TokCases ==
   CASE Family = "C16q" -> On(FourCfgs, Singles(Base)) \cup On(DiagCfgs, Pairs(Base))
                           \cup On(DiagCfgs, CoreAlg \cup CoreTime \cup CoreScope)
-                          \cup OnM(AllCfgs, MintedPlain) \cup OnM(DiagCfgs, MintedMut)
+                          \cup OnM(AllCfgs \cup EdgeCfgs, MintedPlain) \cup OnM(DiagCfgs, MintedMut)
     [] Family = "C16t" -> On(AllCfgs, Pairs(Base)) \cup On(DiagCfgs, Triples(Base))
                           \cup On(AllCfgs, CoreAlg \cup CoreTime \cup CoreScope)
-                          \cup OnM(AllCfgs, MintedPlain) \cup OnM(AllCfgs, MintedMut)
+                          \cup OnM(AllCfgs \cup EdgeCfgs, MintedPlain) \cup OnM(AllCfgs, MintedMut)
 
 ----------------------------------------------------------------------------
 (* assertions (part "map") *)
